@@ -4,6 +4,7 @@ import ZarrsModel.Driver.C08
 import ZarrsModel.Driver.C09
 import ZarrsModel.Driver.C10
 import ZarrsModel.Driver.C11
+import ZarrsModel.Driver.C19
 /-
 Line-protocol driver: reads `request -> implementation outcome` lines, replays each request through the
 model's executable definitions and prints one verdict line per disagreement:
@@ -21,10 +22,12 @@ structure DState where
 /-- new state, acceptable outcomes (`any` accepts everything), optional note -/
 def dispatch (st : DState) (l : Line) : Option (DState × List String × Option String) :=
   match l.verbs.head? with
+  | some "c06" => (DriverC01.handle st.c01 l).map (fun (s, a, n) => ({ st with c01 := s }, a, n))
   | some "c01" => (DriverC01.handle st.c01 l).map (fun (s, a, n) => ({ st with c01 := s }, a, n))
   | some "c08" => (DriverC08.handle st.c08 l).map (fun (s, a, n) => ({ st with c08 := s }, a, n))
   | some "c09" => (DriverC09.handle l).map (fun m => (st, [m], none))
   | some "c10" => (DriverC10.handle l).map (fun m => (st, [m], none))
+  | some "c19" => (DriverC19.handle l).map (fun a => (st, a, none))
   | some "c11" => (DriverC11.handle l).map (fun m => (st, [m], none))
   | _ => none
 
